@@ -54,6 +54,15 @@ def cases(tier, rng):
             raw = bytearray(bytes(rng.getrandbits(8) for _ in range(80)))
             raw[72:76] = ((e << 24) | m).to_bytes(4, "little")
             yield {"k": "hdr", "raw": bytes(raw).hex(), "dom": 3 <= e <= 32 and m < 0x800000}
+    # headers with a zero in one numeric field (version, time, bits, nonce), all of them, and all-ones fields
+    for fld in ((0, 4), (68, 72), (72, 76), (76, 80)):
+        for fill in (0x00, 0xff):
+            raw = bytearray(bytes(rng.getrandbits(8) for _ in range(80)))
+            raw[fld[0]:fld[1]] = bytes([fill]) * 4
+            yield {"k": "hdr", "raw": bytes(raw).hex(), "dom": fld != (72, 76)}
+    yield {"k": "hdr", "raw": "00" * 80, "dom": False}
+    z = bytearray(80); z[72:76] = (0x1d00ffff).to_bytes(4, "little")
+    yield {"k": "hdr", "raw": bytes(z).hex()}
     for ln in (0, 1, 79, 81, 160):
         yield {"k": "hdr", "raw": rand_hex(rng, ln), "reject": True}
     # scanner on single transactions followed by arbitrary bytes
@@ -76,6 +85,10 @@ def cases(tier, rng):
             last["outs"][-1]["script"] = rng.choice([[], [["op", "OP_1"]], [["op", "OP_RETURN"], ["data", "aa"]]])
         elif r < 0.6 and last["sw"]:
             last["wits"][-1] = rng.choice([[], [""], ["51"], ["aabb"]])
+        if j % 6 == 5 and cnt <= 40:
+            from sighash_common import script_of_len
+            big_t = txs[rng.randrange(len(txs))]
+            big_t["outs"][0]["script"] = script_of_len(rng, rng.choice([9999, 10000, 10001, 20000]))
         raws = [_ser(t) for t in txs]
         yield {"k": "blk", "raw": _frame(rng, raws).hex(), "n": cnt}
     # truncated / damaged blocks: out of domain, model mirrors the silent prefix behaviour
